@@ -15,7 +15,7 @@ CHECKS = {
  "C03": (MC, "SFSDenote", "TLC checks the word library against native integers (WordsCheck) and the rule catalogue as identities at 8/16/256 bits (Rules), and evaluates the specifications with rules on and off against the concrete run (SFSDenote) on rule instantiations enumerated by TLC (SeqGen)",
          "bounded-exhaustive over rule instantiations (operators x operands from stack variables, repeated variables, boundary constants; two contexts; chains of three) and the boundary grid at 256 bits; all operand values only at 8 bits for the word library",
          "5 C03", "size gating is observed through C08; a front-end exception on these blocks is a C10 matter"),
- "C04": (MC, "SFSMachine", "TLC trace validation of every greedy id sequence against the symbolic stack machine (SFSTrace over SFSMachine); specifications from the real front-end and hand-built ones enumerated by TLC (SFSGen)",
+ "C04": (MC, "SFSMachine", "TLC trace validation of every greedy id sequence against the symbolic stack machine (SFSTrace over SFSMachine); specifications from the real front-end and hand-built ones enumerated by TLC (SFSGen); the oracle itself is model-checked against the denotation of C02 (SFSRefine)",
          "every error=0 result of the real greedy_from_json on every distinct sub-block specification of the corpus is replayed step by step as a behaviour of SFSMachine and must end in Goal; the first disabled step is named",
          "5 C04 and 13.1", "specifications the front-end produces from the corpus plus well-formed hand-built ones (SFSGen: bounded exhaustive to 2 instructions, simulated to 5/6 instructions and 18 initial stack elements); dependency pair semantics as in DESIGN.md chapter 11"),
  "C05": (MC, "EVM", "TLC enumerates single mutations (Mutate: operand swap, opcode confusion, constant change, dropped / duplicated / exchanged stores and store groups, index slips, stack permutations); the real checker judges them; TLC (EVMEquiv) searches the grid for a state distinguishing every mutant the checker accepted",
@@ -95,7 +95,7 @@ def main():
                    "source_commits": [], "add_only": True},
          "engines": [
              {"name": "EVM", "path": "spec/Words.tla spec/EVM.tla spec/Grid.tla spec/EVMEquiv.tla spec/SeqGen.tla spec/Mutate.tla", "serves_properties": ["C01", "C03", "C05", "C08", "C11"], "kind_free_text": "(with spec/EVMCost.tla spec/CostTrace.tla) TLA+ 256-bit word library and concrete block semantics; TLC batch equivalence checking on a grid of machine states"},
-             {"name": "SFSMachine", "path": "spec/SFSMachine.tla spec/SFSTrace.tla spec/SFSSearch.tla spec/SFSCost.tla spec/SoftCost.tla spec/StaticCost.tla spec/SmtLib.tla spec/SFSGen.tla", "serves_properties": ["C04", "C06", "C07", "C16"], "kind_free_text": "symbolic stack machine over a specification: trace validation and exhaustive bounded search with TLC"},
+             {"name": "SFSMachine", "path": "spec/SFSMachine.tla spec/SFSTrace.tla spec/SFSSearch.tla spec/SFSCost.tla spec/SoftCost.tla spec/StaticCost.tla spec/SmtLib.tla spec/SFSGen.tla spec/SFSRefine.tla", "serves_properties": ["C04", "C06", "C07", "C16"], "kind_free_text": "symbolic stack machine over a specification: trace validation and exhaustive bounded search with TLC"},
              {"name": "SFSDenote", "path": "spec/SFSDenote.tla spec/SFSRealize.tla spec/Rules.tla spec/WordsCheck.tla spec/MemDeps.tla", "serves_properties": ["C02", "C03"], "kind_free_text": "meaning of a specification under every admissible schedule, explored by TLC"},
              {"name": "AsmDoc", "path": "spec/AsmDoc.tla spec/AsmDocGen.tla spec/AsmDocTrace.tla", "serves_properties": ["C15"], "kind_free_text": "abstract solc document, generator and round-trip trace validator"},
              {"name": "Formula", "path": "spec/Formula.tla spec/SExpr.tla spec/FormulaGen.tla spec/FormulaTrace.tla", "serves_properties": ["C18"], "kind_free_text": "formula ASTs with SMT-LIB evaluation, script generator, trace validator"},
